@@ -192,7 +192,9 @@ def run_programs(ctx, nprog, collect_wf=None):
                     break
             if step is None:
                 continue
-            ref_ops = [oc.deq(o) for o in step.operands]
+            # pass-through functions: the reference is the function on the dequantized operands as they are (the twin
+            # with the payload's strides exists for stride-dependent validity, and would only change the order of reductions)
+            ref_ops = [(o.dequantize() if oc.is_q(o) else o) for o in step.operands] if step.rel == "fallback" else [oc.deq(o) for o in step.operands]
             with torch.no_grad():
                 ref = run_fn(step, ref_ops)
                 res = run_fn(step, list(step.operands))
@@ -263,8 +265,9 @@ def aliasing_cases(ctx):
     """two-step programs with an in-place step: `b = P(a)`, then `a.copy_(c)` (or `b.copy_(c')`), then read the other one.
     The float program decides what must happen: a view follows its base, anything else is independent of it."""
     rng = ctx.rng
-    n = 160 if not ctx.thorough else 1600
+    n = 160 if not ctx.thorough else 6000
     names = sorted(ALIAS_PRODUCERS)
+    alines, aexpect = [], []
     for i in range(n):
         F = rng.choice(["f32", "f16", "bf16"])
         Q = rng.choice(["qint8", "qint8", "e4m3", "e5m2"])
@@ -284,24 +287,41 @@ def aliasing_cases(ctx):
             if not oc.is_q(b) or not oc.is_q(c2):
                 ctx.count("aliasing:skipped-float-result")
                 continue
+            same = lambda u, v: u.untyped_storage().data_ptr() == v.untyped_storage().data_ptr()
+            sd_, ss_ = same(b._data, a._data), same(b._scale, a._scale)
+            sharing = "both" if (sd_ and ss_) else ("scale" if ss_ else ("data" if sd_ else "fresh"))
             a_f = a.dequantize().clone()
             b_f = fn(a_f)
             b_before = bits_of(b.dequantize())
             a_before = bits_of(a.dequantize())
+            wdst, wsrc = (a, c) if direction == "into-source" else (b, c2)
+            data_differs = bits_of(wdst._data.float()) != bits_of(wsrc._data.float())
+            scale_differs = bits_of(wdst._scale.expand_as(wsrc._scale) if wdst._scale.shape != wsrc._scale.shape else wdst._scale) != bits_of(wsrc._scale)
+            inner = lambda t: (bits_of(t._data.float()), bits_of(t._scale))
             try:
                 if direction == "into-source":
+                    inner_before = inner(b)
                     a.copy_(c)
                     a_f.copy_(c.dequantize())
-                    got, other_before, want_view = bits_of(b.dequantize()), b_before, bits_of(b_f)
+                    got, other_before, want_view, inner_after = bits_of(b.dequantize()), b_before, bits_of(b_f), inner(b)
                 else:
+                    inner_before = inner(a)
                     b.copy_(c2)
                     b_f.copy_(c2.dequantize())
-                    got, other_before, want_view = bits_of(a.dequantize()), a_before, bits_of(a_f)
+                    got, other_before, want_view, inner_after = bits_of(a.dequantize()), a_before, bits_of(a_f), inner(a)
             except Exception as e:  # noqa
                 ctx.count("aliasing:copy_-raises:" + exc_name(e))
                 continue
         ctx.evaluations += 1
         kind = "view" if is_view else "fresh"
+        # correspondence with the storage model (`alias05`): what the result shares with its operand, and the outcome
+        # (the model's tensor value is the pair of cell contents: observe the inner tensors, not only the dequantized value)
+        outcome = "unchanged" if inner_after == inner_before else ("follows" if (is_view and got == want_view) else "changes")
+        # the model predicts the outcome for a write whose contents differ from the old contents of the shared cell(s)
+        if (sharing == "data" and not data_differs) or (sharing == "scale" and not scale_differs) or (sharing == "both" and not (data_differs or scale_differs)):
+            outcome = "*"
+        alines.append(f"alias05 {pname}")
+        aexpect.append(f"{sharing} {outcome} {'follows' if is_view else 'unchanged'}")
         ctx.count(f"aliasing:{pname}:{direction}")
         ctx.nontriv(("aliasing", pname, direction, F, Q, axis, tuple(shape)))
         want = want_view if is_view else other_before
@@ -309,6 +329,15 @@ def aliasing_cases(ctx):
             ctx.spec_failures.append((f"C05:aliasing:{kind}-result-of-{pname}:{'changes' if not is_view else 'does-not-follow'}",
                                       {"producer": pname, "direction": direction, "F": F, "qtype": Q, "axis": axis, "shape": shape,
                                        "note": "an independent tensor changed when another one was written in place" if not is_view else "a view did not follow the in-place write"}))
+
+
+    got_ = run_driver(alines)
+    ctx.corr_cases += len(alines)
+    for l, e, g in zip(alines, aexpect, got_):
+        if e.split()[1:2] == ["*"] and len(g.split()) == 3:
+            g = " ".join([g.split()[0], "*", g.split()[2]])
+        if e != g and len(ctx.corr_disagreements) < 30:
+            ctx.corr_disagreements.append({"case": l, "impl": e, "model": g, "tag": "aliasing (sharing, outcome of copy_, outcome required by the float program)"})
 
 
 def canon_tok(t):
@@ -339,7 +368,7 @@ def run(ctx):
     ctx.extra["rule"] = ("seeded typed random programs of depth 1-8 over a pool of per-tensor / per-axis QBytes (3 qtypes, equal and different scales), packed QBits, plain tensors and exactly representable Python scalars, "
                          "dtype float32/float16/bfloat16, ranks 1-4; ops: every entry of the QBytes dispatch table + reshape + 16 pass-through functions; two-step aliasing programs (14 producers x in-place copy_ into the source / into the result). distinct = (op, params, operand kinds, branch, dtype); "
                          "non-trivial = all (every step is an intercepted or fallback dispatch)")
-    n = 400 if not ctx.thorough else 5000
+    n = 400 if not ctx.thorough else 20000
     lines, impl_tok, meta, spec_lines, spec_meta = run_programs(ctx, n)
     finish_programs(ctx, lines, impl_tok, meta, spec_lines, spec_meta)
     ctx.extra["ops_never_hit"] = sorted(set(["view", "permute", "transpose", "select", "slice", "unsqueeze", "expand", "t", "neg", "relu", "detach", "clone", "to", "mul", "div", "cat", "stack",
